@@ -34,6 +34,9 @@ func c02(c *Ctx) {
 	sState(c, "R8/S-STATE")
 	coreCommitBundle(c, "R9", "S-MATCH")
 	c11R4(c, "R10/C11.R4")
+	// entries replayed into the FSM at start-up (RestoreCommittedLogs) are the
+	// ones whose commit was staged: never the follower's own unreplicated tail
+	c10R5(c, "R11/C10.R5")
 }
 
 func c02R1(c *Ctx, rule string) {
